@@ -305,3 +305,8 @@ def finalize(ctx):
         ctx.inconc("contract on moved_fraction was never evaluated")
     if ctx.counters.get("nodes_checked", 0) == 0:
         ctx.inconc("no expression node was checked")
+
+
+RULE += (
+    ' Directed nodes: Rechunk(x, x.chunks) with single-block axes, takes/shuffles repeating rows of a small block.'
+)
